@@ -325,7 +325,7 @@ Definition present_eof (t : tk) : tk :=
         set_in_token true (present_char_nr t 12)
     | TS_top | TS_before_token => set_type TT_eof t
     | TS_in_space => set_type (if t_incl_ign t then TT_space else TT_eof) t
-    | TS_in_comment => set_type (if t_incl_ign t then TT_comment else TT_bad) t
+    | TS_in_comment => set_type (if t_incl_ign t then TT_comment else TT_eof) t   (* fix dd6235ea: was tt_bad *)
     | TS_token_ready => t
     | _ => set_err TE_eof_in_token (set_type TT_bad t)
     end in
